@@ -216,6 +216,67 @@ def perm_jumps_replay(params, inputs):
     return out[0] == out[1], f'jumps {out[0]} vs after swapping the atoms {out[1]}; states={s.T.tolist()} inner={i.T.tolist()}'
 
 
+def perm_sites_jumps_job(params):
+    """Relabelling the sites (a permutation of the site indices, NOSITE fixed) relabels origins/destinations of the jumps
+    and changes nothing else."""
+    T, mode, m, perm = params['T'], params['mode'], params.get('m', 0), params['perm']
+
+    def relabel(v):
+        return core.ssum([ite(v == a, perm[a], 0) for a in range(3)]) + ite(v == NOSITE, NOSITE, 0)
+
+    def body():
+        import gemdat.jumps as jm
+        import gemdat.transitions as tr
+        s = S([[sym_int(f's_{t}_0', NOSITE, 2)] for t in range(T)])
+        if mode == 'default':
+            i = s
+        else:
+            i = S([[sym_int(f'i_{t}_0', NOSITE, 2)] for t in range(T)])
+            for t in range(T):
+                assume((i[t, 0] == NOSITE) | (i[t, 0] == s[t, 0]))
+        assume(disj([s[t, 0] != s[t + 1, 0] for t in range(T - 1)]))
+        s2 = S([[relabel(s[t, 0])] for t in range(T)])
+        i2 = s2 if mode == 'default' else S([[relabel(i[t, 0])] for t in range(T)])
+        out = []
+        for (ss, ii) in ((s, i), (s2, i2)):
+            try:
+                ev = tr._calculate_transition_events(atom_sites=ss, atom_inner_sites=ii)
+                rows, _ = c04._convert(jm, ev, m)
+            except Exception as e:
+                event(f'exception:{type(e).__name__}', detail=str(e)[:100])
+                return
+            out.append({(r[0], r[3], r[4]): (r[1], r[2]) for r in rows})
+        prove('same jumps (atom, start, stop) after relabelling the sites', sorted(out[0]) == sorted(out[1]),
+              detail=dict(original=sorted(out[0]), relabelled=sorted(out[1])))
+        if sorted(out[0]) == sorted(out[1]):
+            prove('origin / destination relabelled consistently',
+                  conj([conj([out[1][k][0] == relabel(out[0][k][0]), out[1][k][1] == relabel(out[0][k][1])]) for k in out[0]]))
+        sample(dict(T=T, mode=mode, perm=perm, jumps=len(out[0])))
+
+    return symbolic_job(params, body, perm_sites_jumps_replay)
+
+
+def perm_sites_jumps_replay(params, inputs):
+    import gemdat.jumps as jm
+    import gemdat.transitions as tr
+    T, mode, m, perm = params['T'], params['mode'], params.get('m', 0), params['perm']
+    s = np.array([[int(inputs[f's_{t}_0'])] for t in range(T)])
+    i = s.copy() if mode == 'default' else np.array([[int(inputs.get(f'i_{t}_0', -1))] for t in range(T)])
+    rl = np.vectorize(lambda v: v if v < 0 else perm[v])
+    out = []
+    for (ss, ii) in ((s, i), (rl(s), rl(i))):
+        ev = tr._calculate_transition_events(atom_sites=ss, atom_inner_sites=ii)
+        try:
+            df = jm._generic_transitions_to_jumps(c04._Tr(ev), minimal_residence=m)
+            rows = sorted((int(r[0]), int(r[1]), int(r[2]), int(r[3]), int(r[4])) for r in
+                          df[['atom index', 'start site', 'destination site', 'start time', 'stop time']].values.tolist())
+        except ValueError:
+            rows = []
+        out.append(rows)
+    exp = sorted((a, perm[o], perm[d_], t1, t2) for a, o, d_, t1, t2 in out[0])
+    return exp == out[1], f'jumps {out[0]} relabelled by {perm} should be {exp}, got {out[1]}; states={s.T.tolist()} inner={i.T.tolist()}'
+
+
 def perm_matrix_job(params):
     k, n = params['k'], params['n']
 
@@ -300,7 +361,7 @@ def roll_path_job(params):
     return symbolic_job(params, body, None, timeout_ms=120000)
 
 
-REPLAYS = dict(states_relation_job=states_relation_replay, perm_jumps_job=perm_jumps_replay)
+REPLAYS = dict(states_relation_job=states_relation_replay, perm_jumps_job=perm_jumps_replay, perm_sites_jumps_job=perm_sites_jumps_replay)
 
 
 def jobs(tier, seed):
@@ -333,6 +394,10 @@ def jobs(tier, seed):
         js.append(dict(name=f'perm_atoms_jumps_T{T}_{mode}_m{m}', fn='perm_jumps_job', params=dict(T=T, mode=mode, m=m)))
     for k, n in pm:
         js.append(dict(name=f'perm_sites_matrix_k{k}_n{n}', fn='perm_matrix_job', params=dict(k=k, n=n)))
+    for T, mode, m, perm in ([(4, 'default', 0, [1, 0, 2]), (4, 'inner', 1, [2, 0, 1])] if tier == 'quick' else
+                             [(4, 'default', 0, [1, 0, 2]), (5, 'default', 0, [2, 0, 1]), (4, 'inner', 1, [2, 0, 1]), (5, 'inner', 0, [1, 2, 0])]):
+        js.append(dict(name=f'perm_sites_jumps_T{T}_{mode}_m{m}_{"".join(map(str, perm))}', fn='perm_sites_jumps_job',
+                       params=dict(T=T, mode=mode, m=m, perm=perm)))
     for k, lat, res, sh in rv:
         js.append(dict(name=f'roll_volume_k{k}_res{res}', fn='roll_volume_job', params=dict(k=k, lattice=lat, resolution=res, shift=sh)))
     for shape, diag, sh in rp:
